@@ -268,11 +268,6 @@ package syncer
 //@   modifies e.Key, replayFailed
 //@   ensures counted: (err != nil ==> replayFailed == old(replayFailed) + 1) && (err == nil ==> replayFailed == old(replayFailed))
 
-//@ func redis.SelectDB(c, db) (err)
-//@   trusted abstract: a failed database switch counts as a failed replay step
-//@   modifies replayFailed
-//@   ensures counted: (err != nil ==> replayFailed == old(replayFailed) + 1) && (err == nil ==> replayFailed == old(replayFailed))
-
 //@ func RedisOutput.NewRedisConn
 //@   trusted frame: opens a connection, modifies nothing that existed before
 //@   ensures conn_or_error: result1 == nil ==> result0 != nil
